@@ -212,6 +212,10 @@ def run(ctx: Ctx):
                     ctx.violation("c03:" + classify_abort(run, p), "sanitizer report: %s" % (run.abort[1],), dict(base, stderr=run.stderr))
             for sp in run.spins():
                 ctx.count("spins_seen")     # C04's business
+        if not ctx.samples and res:
+            rid, run = next(iter(res.items()))
+            ctx.sample({"args": run.prog.meta["args"], "input": run.prog.meta["inputs"][int(rid.split(".")[1])][:40].decode("latin-1"),
+                        "script": run.script[:8], "events": [str(e) for e in run.events[:5]]})
         if len(ctx.samples) < 4:
             for rid, run in res.items():
                 if any(e[0] == "H" for e in run.events) and len(run.events) > 3:
